@@ -35,8 +35,10 @@ type World struct {
 	assumedUsed         map[string]bool
 	aliases             map[string]map[string]string // package path -> import alias -> import path
 	genericIdx          map[string]*ssa.Function
-	curProp             string          // the property whose check is being generated ("" in verify/dump mode: everything is checked)
-	insliceUsers        map[string]bool // packages whose contracts use the builtin inslice (append lemmas are emitted there)
+	curProp             string                              // the property whose check is being generated ("" in verify/dump mode: everything is checked)
+	insliceUsers        map[string]bool                     // packages whose contracts use the builtin inslice (append lemmas are emitted there)
+	localAlias          map[*ssa.Function]map[string]string // recorded local name -> current name (locals.go)
+	renamedLocals       []string
 }
 
 const contractFileName = "zz_contracts_verif.go"
@@ -200,6 +202,7 @@ func loadWorld(repo, verif string) (*World, error) {
 		}
 	}
 	w.expandGhostWildcards()
+	w.loadLocalAliases(verif)
 	return w, nil
 }
 
